@@ -13,7 +13,9 @@ CFG = dict(
          "Close+Open, snapshots (requested ts, renewal period elapsed or not), Get/GetBetween/History/GetWithPrefix/Ts on "
          "the tree and on open snapshots, Readers with every combination of seek/end/prefix/inclusiveness/direction/"
          "offset in the three modes (latest, history, ReadBetween) partly read later or concurrently with the writer, "
-         "HistoryReaders; two fixed probe cases first (the inputs of the repaired defects e30fc04 and 18b7c7d); profiles mixed / "
+         "HistoryReaders; four fixed probe cases first (the inputs of the repaired defects: GetBetween chain overrun, tree "
+         "emptied by a rejected batch after restart, snapshot reader vs. synced cleanup flush, parallel inserts over "
+         "more chunk files than the multiapp cache holds); nodes-log max opened files default/1/2; profiles mixed / "
          "deep (minimal nodes) / adversarial / rollback (half of them right after a restart); a case is non-trivial when "
          "the tree held at least 2 keys and at least 5 operations ran; distinct by the whole recorded sequence",
     trusted_base=COMMON_TB + [
